@@ -155,7 +155,7 @@ def typed_value(draw, allow_table=True):
                                                "#!/bin/sh", "  # a body line that starts with a hash", "#alpha 1",
                                                # characters str.splitlines() would split at: only the newline ends a line
                                                "Chapter 1\x0cChapter 2", "a\x0bb", "x\x1cy\x1dz", "u\x85v", "p\u2028q",
-                                               "cr\rinside"]),
+                                               "cr\rinside", "trailing blanks   ", "   "]),
                               min_size=1, max_size=4))
         if lines[0] == "" or lines[-1] == "":
             lines = ["first"] + lines + ["end"]
